@@ -442,9 +442,9 @@ def run(ctx: core.Ctx) -> None:
         otasks = oil_tasks(ctx, True, n_rng=80) + exact_oil_tasks(m)
         wtasks = water_tasks(ctx, m, True, n_rng=12)
     else:
-        gtasks = gas_tasks(ctx, m, n_dense=301, cg_every=2, n_rng=800, rng_len=40)
-        otasks = oil_tasks(ctx, False, n_rng=3000) + exact_oil_tasks(m)
-        wtasks = water_tasks(ctx, m, False, n_rng=300)
+        gtasks = gas_tasks(ctx, m, n_dense=601, cg_every=2, n_rng=3000, rng_len=40)
+        otasks = oil_tasks(ctx, False, n_rng=12000) + exact_oil_tasks(m)
+        wtasks = water_tasks(ctx, m, False, n_rng=1500)
     log = run_sweeps(ctx, m, gtasks, otasks, wtasks)
     ctx.extra["exact_cases_exported_by_TLC"] = {"water": len(m.water), "oil": len(m.oil)}
     judge_all(ctx, log)
